@@ -16,6 +16,7 @@ from . import vt as _vt
 from .e2e import decode_apdu_header
 
 PEER = 10
+PEERS = (10, 11, 12)          # raw link stations: 10 is the default sender; 11, 12 act as routers / other senders
 DEVICE = 20
 
 
@@ -62,14 +63,17 @@ def build():
         pass
 
     class RawPeer(Client):
-        def __init__(self, lan):
+        def __init__(self, lan, addr=PEER, log=None):
             Client.__init__(self)
-            self.node = Node(Address(PEER), lan)
+            self.addr = addr
+            self.node = Node(Address(addr), lan)
             bind(self, self.node)
             self.received = []
+            self.log = log if log is not None else []     # (station, octets) of every peer, in arrival order
 
         def confirmation(self, pdu):
             self.received.append(bytes(pdu.pduData))
+            self.log.append((self.addr, bytes(pdu.pduData)))
 
         def send(self, octets, dst=DEVICE):
             self.request(PDU(octets, destination=Address(dst)))
@@ -105,22 +109,32 @@ def build():
             self.file = MemFile(objectIdentifier=("file", 1), objectName="f1")
             for o in (self.av, self.bv, self.mv, self.file):
                 self.app.add_object(o)
-            self.peer = RawPeer(self.lan)
+            self.wire = []
+            self.peers = dict((a, RawPeer(self.lan, a, self.wire)) for a in PEERS)
+            self.peer = self.peers[PEER]
             self.vt.run()
-            self.peer.received = []
+            for p in self.peers.values():
+                p.received = []
+            del self.wire[:]
             self.SSM = SSM
 
         def inject(self, frames, settle=None):
             """all frames in the same instant; then run until nothing is left
-            (SSM timers included), or for `settle` seconds"""
+            (SSM timers included), or for `settle` seconds.  A frame is octets (sent by
+            station PEER) or a pair (sending station, octets)."""
             n0 = len(self.peer.received)
+            w0 = len(self.wire)
             e0 = len(self.vt.errors)
             for f in frames:
-                self.peer.send(f)
+                if isinstance(f, tuple):
+                    self.peers[f[0]].send(f[1])
+                else:
+                    self.peer.send(f)
             ok = self.vt.run(until=(self.vt.now + settle) if settle else None, max_loops=20000)
             raw = self.peer.received[n0:]
             return {"terminated": ok,
                     "replies": [(decode_apdu_header(r), r) for r in raw],
+                    "wire": [(a, decode_apdu_header(r), r) for (a, r) in self.wire[w0:]],
                     "errors": self.vt.errors[e0:]}
 
         def residue(self):
@@ -150,7 +164,8 @@ def templates():
                                ConfirmedPrivateTransferRequest, SubscribeCOVRequest,
                                ReinitializeDeviceRequest, WhoHasRequest, WhoHasObject,
                                ConfirmedRequestPDU, UnconfirmedRequestPDU, CreateObjectRequest,
-                               ReadRangeRequest, DeleteObjectRequest)
+                               ReadRangeRequest, DeleteObjectRequest, ConfirmedTextMessageRequest,
+                               ConfirmedTextMessageRequestMessageClass, LifeSafetyOperationRequest)
     from bacpypes.primitivedata import Real, Unsigned, CharacterString, OctetString
     from bacpypes.constructeddata import Any
 
@@ -213,6 +228,21 @@ def templates():
                                                   issueConfirmedNotifications=False, lifetime=30), 11)
     t["reinit-unsupported"] = cr(ReinitializeDeviceRequest(reinitializedStateOfDevice="warmstart"), 12)
     t["delete-unsupported"] = cr(DeleteObjectRequest(objectIdentifier=("analogValue", 1)), 13)
+    # requests whose CHARACTER STRING parameters are decoded by the service decoder itself (not inside an Any)
+    t["dcc-password"] = cr(DeviceCommunicationControlRequest(timeDuration=1, enableDisable="enable",
+                                                            password=CharacterString("secret")), 14)
+    t["reinit-password"] = cr(ReinitializeDeviceRequest(reinitializedStateOfDevice="warmstart",
+                                                       password=CharacterString("pw")), 15)
+    t["text-message"] = cr(ConfirmedTextMessageRequest(
+        textMessageSourceDevice=("device", 7),
+        messageClass=ConfirmedTextMessageRequestMessageClass(character=CharacterString("ops")),
+        messagePriority="normal", message=CharacterString("hello there")), 16)
+    t["lso"] = cr(LifeSafetyOperationRequest(requestingProcessIdentifier=1, requestingSource=CharacterString("panel"),
+                                             request="silence"), 17)
+    # an answer of many segments under a small announced maximum
+    t["rpm-big"] = cr(ReadPropertyMultipleRequest(listOfReadAccessSpecs=[
+        ReadAccessSpecification(objectIdentifier=o, listOfPropertyReferences=[PropertyReference(propertyIdentifier="all")])
+        for o in (("device", DEVICE), ("analogValue", 1), ("binaryValue", 1), ("multiStateValue", 1))]), 18)
     # unconfirmed
     t["whois"] = frame(WhoIsRequest())
     t["whois-limits"] = frame(WhoIsRequest(deviceInstanceRangeLowLimit=0, deviceInstanceRangeHighLimit=100))
@@ -270,6 +300,51 @@ def classify(frame):
     if len(a) < 4:
         return ("other", None)
     return ("confirmed", a[2])
+
+
+TEMPLATE_STRINGS = {"dcc-password": [b"secret"], "reinit-password": [b"pw"], "text-message": [b"ops", b"hello there"],
+                    "lso": [b"panel"], "wp-string": [b"hello"]}
+
+STRING_CONTENTS = [b"", b"a", b"ab", b"abc", b"abcd", b"abcde", b"abcdefgh", b"\xd8\x00", b"\xdc\x00\xd8\x00",
+                   b"\x00\x41\xd8\x00", b"\x00\x11\x00\x00", b"\xff\xff\xff\xff", b"\x00\x00\xd8\x00",
+                   b"\xe2\x82", b"\xc3", b"\xff", b"\xff\xff\xff", b"\x00", b"\xf8\x88\x80\x80\x80", b"\xed\xa0\x80"]
+CHARSETS = [0, 1, 2, 3, 4, 5, 255]
+
+
+def string_mutations(name, frame):
+    """for every character-string tag of a template: every charset octet x ill-formed / odd / even content.
+    The tag is found by its known content; its header (class, number) is kept, the length rewritten."""
+    out = []
+    for text in TEMPLATE_STRINGS.get(name, []):
+        data = b"\x00" + text
+        at = frame.find(data)
+        if at < 0:
+            continue
+        # tag header in front of the data: one octet (length < 5) or octet + length octet
+        if len(data) < 5:
+            h0 = at - 1
+        else:
+            h0 = at - 2
+        first = frame[h0]
+        for cs in CHARSETS:
+            for content in STRING_CONTENTS:
+                d = bytes([cs]) + content
+                hdr = bytes([(first & 0xF8) | len(d)]) if len(d) < 5 else bytes([(first & 0xF8) | 5, len(d)])
+                out.append(frame[:h0] + hdr + d + frame[at + len(data):])
+    return out
+
+
+def routed(frame, snet, sadr, dnet_bits=b""):
+    """the frame as a router would deliver it: SNET/SADR added to the (plain) NPCI"""
+    return bytes([frame[0], frame[1] | 0x08]) + bytes([snet >> 8, snet & 255, len(sadr)]) + sadr + frame[2:]
+
+
+def reply_route(raw):
+    """(dnet, dadr) of a frame carrying a DNET, or None"""
+    if len(raw) < 5 or raw[0] != 1 or not raw[1] & 0x20:
+        return None
+    dlen = raw[4]
+    return ((raw[2] << 8) | raw[3], bytes(raw[5:5 + dlen]))
 
 
 REPLY_TYPES = {2: "simple-ack", 3: "complex-ack", 5: "error", 6: "reject", 7: "abort"}
